@@ -8,9 +8,11 @@ from vf.props import _deriv as D
 ID = 'C03'
 NSHARDS = dict(quick=8, thorough=16)
 BUDGET = dict(quick=2400, thorough=120000)
-ANCHORS = ['numdifftools.core:Jacobian._expand_steps', 'numdifftools.core:Jacobian._derivative_nonzero_order',
-           'numdifftools.finite_difference:LogJacobianRule._vstack', 'numdifftools.core:Gradient.__call__',
-           'numdifftools.core:directionaldiff', 'numdifftools.finite_difference:JacobianDifferenceFunctions.increments']
+ANCHORS = ['numdifftools.core:Jacobian._derivative_nonzero_order', 'numdifftools.core:Gradient.__call__',
+           'numdifftools.core:directionaldiff']
+# watched for reach only (nothing is decided inside them: a refactoring may move them)
+ALSO_WATCHED = ['numdifftools.core:Jacobian._expand_steps', 'numdifftools.finite_difference:LogJacobianRule._vstack',
+                'numdifftools.finite_difference:JacobianDifferenceFunctions.increments']
 MIN_COUNTERS = dict(quick={'jacobian_shape_asserted': 1200, 'affine_entries_asserted': 5000, 'smooth_entries_asserted': 2000,
                            'matrix_valued_asserted': 200, 'gradient_asserted': 200, 'directionaldiff_asserted': 150,
                            'length_one_output_cases': 100, 'nested_gradient_cases': 40},
@@ -33,7 +35,7 @@ C_AFF = 64.0
 
 
 def setup(ctx, mon):
-    D.setup_monitors(ctx, mon, ANCHORS)
+    D.setup_monitors(ctx, mon, ANCHORS + ALSO_WATCHED)
 
 
 def cases(rng, tier, shard, nshards):
@@ -44,8 +46,11 @@ def cases(rng, tier, shard, nshards):
         yield dict(kind=kind, n=n, m=int(rng.integers(1, 7)), k=int(rng.integers(1, 5)), method=METHODS[i % 5],
                    order=int(rng.choice([2, 4])), seed=int(rng.integers(0, 2 ** 31)),
                    # C03 does not quantify over step generators: default steps, sometimes a scalar step
-                   step=(dict(kind='default') if rng.random() < 0.8 else
-                         dict(kind='scalar', value=float(10.0 ** rng.uniform(-5, -2)))),
+                   step=(dict(kind='default') if rng.random() < 0.7 else
+                         dict(kind='scalar', value=float(10.0 ** rng.uniform(-5, -2))) if rng.random() < 0.6 else
+                         # a step generator with a ratio of its own (rule, steps and extrapolation must all use it)
+                         dict(kind='min', opts=dict(base_step=float(10.0 ** rng.uniform(-3, -1)), step_ratio=float(rng.choice([1.6, 3.0, 4.0])),
+                                                    num_steps=int(rng.integers(8, 13))))),
                    xmat=bool(rng.random() < 0.4))
 
 
@@ -157,7 +162,11 @@ def run_case(case, ctx):
         base = float(rng.choice([-1, 1]) * 10.0 ** rng.uniform(0.05, 0.7))
         x = np.array([base * (1.0 + (0.0 if j == 0 else float(rng.choice([-1, 1]) * 10.0 ** rng.uniform(-9, -5.3)))) *
                       (1.0 if rng.random() < 0.7 else -1.0) for j in range(n)])
-    f32_x = kind in ('affine', 'smooth') and case['seed'] % 8 == 1
+    if case['step']['kind'] == 'min' and kind != 'affine':
+        # (generators with their own ratio are drawn for the affine maps only: the envelopes of the other families are stated for
+        # the default steps and a user-chosen scalar step, C03 does not quantify over step generators)
+        case = dict(case, step=dict(kind='default'))
+    f32_x = kind in ('affine', 'smooth') and case['seed'] % 8 == 1 and case['step']['kind'] != 'min'
     if f32_x:
         # the point handed over as a float32 array (the maps themselves compute in float64)
         ctx.count('float32_x_cases')
